@@ -262,8 +262,30 @@ func (in *Interp) sprintf(format string, args []Value) Value {
 			s := in.fmtValue(a, 'v', 0)
 			if cs, ok := s.(string); ok {
 				res = strConcat(res, strconv.Quote(cs))
+			} else if bs, ok := strBytes(s); ok {
+				// strconv.Quote byte by byte: `"` and `\` get a backslash, printable ASCII stands for itself;
+				// other bytes (control characters, non-ASCII: escapes depend on UTF-8 validity) are not modelled
+				var q Value = "\""
+				for _, b := range bs {
+					if b.isConst() {
+						inner := strconv.Quote(string([]byte{byte(b.c)}))
+						if b.c >= 0x80 {
+							unsup("%%q of a string with non-ASCII bytes")
+						}
+						q = strConcat(q, inner[1:len(inner)-1])
+						continue
+					}
+					if in.decide(mkOr(mkEq(b, mkConst('"', 8)), mkEq(b, mkConst('\\', 8)))) {
+						q = strConcat(strConcat(q, "\\"), &SStr{parts: []SPart{{b: b}}})
+					} else if in.decide(mkAnd(mkBin(OULe, mkConst(0x20, 8), b), mkBin(OULe, b, mkConst(0x7e, 8)))) {
+						q = strConcat(q, &SStr{parts: []SPart{{b: b}}})
+					} else {
+						unsup("%%q of a symbolic control or non-ASCII byte")
+					}
+				}
+				res = strConcat(res, strConcat(q, "\""))
 			} else {
-				res = strConcat(strConcat(strConcat(res, "\""), s), "\"")
+				res = strConcat(res, opaqueStr("fmt%q"))
 			}
 		case 'x', 'X', 'o', 'b':
 			if sv, ok := v.(Sym); ok && sv.t.w > 0 && spec == "%"+string(verb) {
